@@ -1,14 +1,16 @@
 #!/bin/sh
-# tools/mutant.sh <patch.diff> <Cxx> [Cyy ...] : apply a seeded change to /repo, run the quick checks, restore /repo
-P="$1"; shift
-cd /repo || exit 2
-git diff --quiet || { echo "/repo is dirty"; exit 2; }
-git apply "$P" || { echo "patch does not apply"; exit 2; }
-trap 'git -C /repo checkout -- . ; echo "[/repo restored]"' EXIT INT TERM
+# tools/mutant.sh <patch.diff> <Cxx> [Cyy ...] : run the quick checks against a scratch worktree of /repo with the
+# seeded change applied (VERIF_REPO points the whole harness at it); /repo itself is not touched.
+P="$(realpath "$1")"; shift
+W=/tmp/mutrepo.$$
+git -C /repo worktree add -f --detach "$W" HEAD >/dev/null 2>&1 || exit 2
+trap 'git -C /repo worktree remove --force "$W"; echo "[scratch worktree removed]"' EXIT INT TERM
+git -C "$W" apply "$P" || { echo "patch does not apply"; exit 2; }
 cd /verif
 for c in "$@"; do
-  /usr/bin/time -f "  ($c %es)" ./check "$c" --tier quick > /tmp/mutant_$c.log 2>&1
+  VERIF_REPO="$W" /usr/bin/time -f "  ($c %es)" ./check "$c" --tier quick > /tmp/mutant_$c.$$.log 2>&1
   rc=$?
-  echo "== $c rc=$rc $(grep -c '^  failing' /tmp/mutant_$c.log) failing lines; $(grep 'VIOLATION\|MACHINERY\|KNOWN' /tmp/mutant_$c.log | head -3)"
-  grep '^  failing' /tmp/mutant_$c.log | sed 's/case=.*//' | cut -c1-220 | sort | uniq -c | sort -rn | head -4
+  echo "== $c rc=$rc $(grep -c '^  failing' /tmp/mutant_$c.$$.log) failing lines; $(grep 'VIOLATION\|MACHINERY\|KNOWN' /tmp/mutant_$c.$$.log | head -3)"
+  grep '^  failing' /tmp/mutant_$c.$$.log | sed 's/case=.*//' | cut -c1-220 | sort | uniq -c | sort -rn | head -4
+  rm -f /tmp/mutant_$c.$$.log
 done
